@@ -125,7 +125,7 @@ Proof.
   unfold val_ok, aget in Hval. rewrite Hx in Hval.
   unfold to_entry_val in Hto. rewrite Hx in Hto.
   destruct e; try (exfalso; eapply Hnp; reflexivity);
-  destruct dc as [ |c nk|en| |df|c|i]; simpl in Hinv; try discriminate;
+  destruct dc as [ |c nk|en| |df|c|i|i]; simpl in Hinv; try discriminate;
   destruct st as [[c'|]| | | |[c'|]]; simpl in Hinv; try discriminate.
   all: destruct ov as [v|]; [destruct v|]; simpl in Hval, Hto; try discriminate.
   all: try (destruct df; try discriminate).
@@ -168,6 +168,19 @@ Proof.
     simpl. rewrite <- app_assoc. reflexivity.
 Qed.
 
+Lemma rsplit_nocomma t : no_comma t = true -> rsplit_comma t = None.
+Proof.
+  induction t as [|c t IH]; intro H; [reflexivity|].
+  apply no_comma_cons in H as [H1 H2]. simpl. rewrite (IH H2). rewrite H1. reflexivity.
+Qed.
+
+Lemma rsplit_pair r t : no_comma t = true -> rsplit_comma (r ++ comma :: t) = Some (r, t).
+Proof.
+  intro Ht. induction r as [|c r IH]; simpl.
+  - rewrite (rsplit_nocomma t Ht). reflexivity.
+  - rewrite IH. reflexivity.
+Qed.
+
 Lemma core_pair_primary k a x y g dc st o ov :
   inv_ok (RPrimary (EImagePair y)) dc st = true ->
   val_ok k (RPrimary (EImagePair y)) dc st a x = true ->
@@ -176,16 +189,20 @@ Lemma core_pair_primary k a x y g dc st o ov :
   bind (dec_val k dc (out_str o)) (apply_setter st) = Ok (expected dc ov).
 Proof.
   intros Hinv Hval Hx Hto.
-  destruct dc as [ |c nk|en| |df|c|i]; simpl in Hinv; try discriminate.
-  destruct i; [|discriminate].
-  destruct st as [[c'|]| | | |[c'|]]; simpl in Hinv; try discriminate.
-  unfold val_ok, aget in Hval. unfold to_entry_val in Hto. rewrite Hx in Hval, Hto.
-  destruct ov as [[r| | | | | | ]|]; try discriminate.
+  destruct dc as [ |c nk|en| |df|c|i|i]; simpl in Hinv; try discriminate.
+  all: destruct i; [|discriminate].
+  all: destruct st as [[c'|]| | | |[c'|]]; simpl in Hinv; try discriminate.
+  all: unfold val_ok, aget in Hval; unfold to_entry_val in Hto; rewrite Hx in Hval, Hto.
+  all: destruct ov as [[r| | | | | | ]|]; try discriminate.
+  all: try (destruct (alookup y a) as [[vy|]|]; try discriminate; inversion Hto; subst o; reflexivity).
+  - destruct (alookup y a) as [[[t| | | | | | ]|]|]; try discriminate.
+    apply andb_true_iff in Hval as [Hr Ht]. simpl in Hr.
+    simpl in Hto. inversion Hto; subst o. simpl.
+    rewrite (split_comma_pair r t [] Hr Ht). reflexivity.
   - destruct (alookup y a) as [[[t| | | | | | ]|]|]; try discriminate.
     apply andb_true_iff in Hval as [Hr Ht].
     simpl in Hto. inversion Hto; subst o. simpl.
-    rewrite (split_comma_pair r t [] Hr Ht). reflexivity.
-  - destruct (alookup y a) as [[vy|]|]; try discriminate; inversion Hto; subst o; reflexivity.
+    rewrite (rsplit_pair r t Ht). reflexivity.
 Qed.
 
 Lemma core_pair_partner k a x x0 g dc st o ov :
@@ -196,17 +213,20 @@ Lemma core_pair_partner k a x x0 g dc st o ov :
   bind (dec_val k dc (out_str o)) (apply_setter st) = Ok (expected dc ov).
 Proof.
   intros Hinv Hval Hx Hto.
-  destruct dc as [ |c nk|en| |df|c|i]; simpl in Hinv; try discriminate.
-  destruct i as [|[|i]]; try discriminate.
-  destruct st as [[c'|]| | | |[c'|]]; simpl in Hinv; try discriminate.
-  unfold val_ok, aget in Hval. unfold to_entry_val in Hto. rewrite Hx in Hval, Hto.
-  destruct (alookup x0 a) as [[[r| | | | | | ]|]|]; try discriminate.
+  destruct dc as [ |c nk|en| |df|c|i|i]; simpl in Hinv; try discriminate.
+  all: destruct i as [|[|i]]; try discriminate.
+  all: destruct st as [[c'|]| | | |[c'|]]; simpl in Hinv; try discriminate.
+  all: unfold val_ok, aget in Hval; unfold to_entry_val in Hto; rewrite Hx in Hval, Hto.
+  all: destruct (alookup x0 a) as [[[r| | | | | | ]|]|]; try discriminate.
+  all: try (destruct ov as [v|]; try discriminate; inversion Hto; subst o; reflexivity).
+  - destruct ov as [[t| | | | | | ]|]; try discriminate.
+    apply andb_true_iff in Hval as [Hr Ht]. simpl in Hr.
+    simpl in Hto. inversion Hto; subst o. simpl.
+    rewrite (split_comma_pair r t [] Hr Ht). reflexivity.
   - destruct ov as [[t| | | | | | ]|]; try discriminate.
     apply andb_true_iff in Hval as [Hr Ht].
     simpl in Hto. inversion Hto; subst o. simpl.
-    rewrite (split_comma_pair r t [] Hr Ht). reflexivity.
-  - destruct ov as [v|]; try discriminate. inversion Hto; subst o; reflexivity.
-  - destruct ov as [v|]; try discriminate. inversion Hto; subst o; reflexivity.
+    rewrite (rsplit_pair r t Ht). reflexivity.
 Qed.
 
 (* ---------- D. assembling ---------- *)
@@ -250,7 +270,7 @@ Proof.
   7: { destruct ov as [[r| | | | | | ]|]; try discriminate.
        - destruct (alookup partner a) as [[[t| | | | | | ]|]|]; try discriminate. reflexivity.
        - destruct (alookup partner a) as [[vy|]|]; reflexivity. }
-  all: destruct dc as [ |c nk|en| |df|c|i]; try discriminate;
+  all: destruct dc as [ |c nk|en| |df|c|i|i]; try discriminate;
        destruct st as [[c'|]| | | |[c'|]]; try discriminate;
        destruct ov as [[]|]; try discriminate; try reflexivity.
 Qed.
@@ -408,7 +428,7 @@ Section RoundTrip.
       rewrite (pget_out g P o Hl).
       replace (match ov with Some v => Some v | None => match dc with
                | DFromJson c NKWrap => Some (FObj c None) | _ => None end end) with (expected dc ov)
-        by (destruct ov; [reflexivity|]; destruct dc as [ |? []| | | | | ]; reflexivity).
+        by (destruct ov; [reflexivity|]; destruct dc as [ |? []| | | | | | ]; reflexivity).
       apply bind_pair.
       destruct e; try (eapply core_primary; eauto; intros y Hy; discriminate).
       eapply core_pair_primary; eauto.
@@ -417,7 +437,7 @@ Section RoundTrip.
       rewrite (pget_out g P o Hl).
       replace (match ov with Some v => Some v | None => match dc with
                | DFromJson c NKWrap => Some (FObj c None) | _ => None end end) with (expected dc ov)
-        by (destruct ov; [reflexivity|]; destruct dc as [ |? []| | | | | ]; reflexivity).
+        by (destruct ov; [reflexivity|]; destruct dc as [ |? []| | | | | | ]; reflexivity).
       apply bind_pair. eapply core_pair_partner; eauto.
   Qed.
 
@@ -486,4 +506,22 @@ Proof.
   unfold is_normal, normalize. induction a as [|[x o] r IH]; simpl; intro H; [reflexivity|].
   apply andb_true_iff in H as [H1 H2]. rewrite IH by exact H2. f_equal.
   destruct o; [reflexivity|]. destruct (absent_reads k x); [discriminate | reflexivity].
+Qed.
+
+Lemma normalize_absent_none k a :
+  absent_none k = true -> akeys a = data_attrs k -> normalize k a = a.
+Proof.
+  intros Hn Hk. unfold absent_none in Hn. rewrite forallb_forall in Hn. rewrite <- Hk in Hn. clear Hk.
+  unfold normalize. induction a as [|[x o] r IH]; simpl; [reflexivity|].
+  rewrite IH by (intros y Hy; apply Hn; right; exact Hy). f_equal.
+  destruct o; [reflexivity|]. specialize (Hn x (or_introl eq_refl)).
+  destruct (absent_reads k x); [discriminate | reflexivity].
+Qed.
+
+Theorem props_roundtrip_exact_generic k a :
+  tables_symmetric k = true -> absent_none k = true -> attrs_wf k a = true ->
+  bind (to_props k a) (from_props k) = Ok a.
+Proof.
+  intros Hs Hn Hw. rewrite (props_roundtrip_generic k a Hs Hw).
+  rewrite (normalize_absent_none k a Hn); [reflexivity|]. apply (wf_parts k a Hw).
 Qed.
